@@ -19,7 +19,8 @@ def params : Params :=
   { maxLevel := Gen.C11.maxLevel
     skipListMethods := Gen.C11.skipListMethods
     sortedSetMethods := Gen.C11.sortedSetMethods
-    cmps := [("L.Insert", Gen.C11.cmpLInsert), ("L.Delete", Gen.C11.cmpLDelete),
+    cmps := [("L.deleteNode", Gen.C11.cmpLDeleteNode), ("L.randLevel", Gen.C11.cmpLRandLevel),
+      ("L.Insert", Gen.C11.cmpLInsert), ("L.Delete", Gen.C11.cmpLDelete),
       ("L.DeleteRangeByRank", Gen.C11.cmpLDeleteRangeByRank), ("L.DeleteRangeByScore", Gen.C11.cmpLDeleteRangeByScore),
       ("L.GetRank", Gen.C11.cmpLGetRank), ("L.GetElementByRank", Gen.C11.cmpLGetElementByRank),
       ("L.IsInRange", Gen.C11.cmpLIsInRange), ("L.FirstInRange", Gen.C11.cmpLFirstInRange),
@@ -45,7 +46,12 @@ def modelledSortedSet : List String :=
 
 /-- the comparisons the model functions mirror, per source function, in source order -/
 def modelCmps : List (String × List String) :=
-  [("L.Insert", ["i >= 0", "i != zsl.level-1", "x.level[i].forward != nil", "x.level[i].forward.Score < score",
+  [("L.deleteNode", ["i < zsl.level", "update[i].level[i].forward == x", "x.level[0].forward != nil",
+      "zsl.level > 1", "zsl.head.level[zsl.level-1].forward == nil"]),
+   -- randLevel is not modelled (the tower height is an input of S.insert); what the theorems need from it
+   -- is its range: it starts at 1 and clamps at ZSKIPLIST_MAXLEVEL
+   ("L.randLevel", ["float32(seed) < ZSKIPLIST_P*0xFFFF", "level > ZSKIPLIST_MAXLEVEL"]),
+   ("L.Insert", ["i >= 0", "i != zsl.level-1", "x.level[i].forward != nil", "x.level[i].forward.Score < score",
       "x.level[i].forward.Score == score", "x.level[i].forward.Ele.CompareTo(ele) < 0", "level > zsl.level",
       "i < level", "i < level", "i < zsl.level", "update[0] != zsl.head", "x.level[0].forward != nil"]),
    ("L.Delete", ["i >= 0", "x.level[i].forward != nil", "x.level[i].forward.Score < score",
